@@ -76,3 +76,23 @@ Proof.
   cbn [rmap map orb bind snd]. rewrite app_nil_r. unfold regrouped. cbn [regroup zip map fst snd mk_list]. rewrite take_all by lia. reflexivity.
 Qed.
 Print Assumptions getitem_array_alone.
+
+(* ---------------------------------------------------------------- why the hypotheses of parts 3-7 are there *)
+(* The model does not re-normalise its results (the C++ calls simplify_optiontype): the layouts it produces and
+   recurses on need not be valid, although their values are right.
+   (1) projecting a field that is itself an option / IndexedArray node out of a record that sits directly under an
+       option / IndexedArray node: the projected layout has an option node directly under another one
+       (hence [rec_fields_ok] in the fragment [gfrag]); *)
+Example field_projection_leaves_valid_layouts_refuted :
+  let c := IndexedOption I64 [0; -1] (Record [IndexedOption I64 [-1; 0] (Numpy DInt64 [1] [DZ 7])] (Some [[120]]) 2) in
+  validb None c = true /\ rec_fields_ok (Record [IndexedOption I64 [-1; 0] (Numpy DInt64 [1] [DZ 7])] (Some [[120]]) 2) = false /\
+  exists f, field_content [120] c = Ok f /\ validb None f = false /\ to_list f = Ok [VNone; VNone].
+Proof. vm_compute. repeat split. eexists. repeat split. Qed.
+(* (2) an integer item on an option-wrapped list of options: the result is an option node over an option node
+       (so the result of [gn] cannot be fed back to a theorem that assumes validity: this is what stops the proof of
+       positional items slicing THROUGH a record, [slice_ok]) *)
+Example gn_result_not_valid :
+  let c := IndexedOption I64 [0] (ListOffset I64 [0; 1] (IndexedOption I64 [-1] (Numpy DInt64 [0] []))) in
+  validb None c = true /\
+  exists r, gn 8 c [IAt 0] None = Ok r /\ validb None r = false /\ to_list r = Ok [VNone].
+Proof. vm_compute. repeat split. eexists. repeat split. Qed.
